@@ -64,7 +64,7 @@ Definition parse_hmtx (src : list Z) (n_long n_lsb : Z) : res hmtx_tab :=
 (* font.loadHVtmx: any error leaves the zero (empty) table in the Font *)
 Definition load_hmtx (hhea hmtx : list Z) (num_glyphs : Z) : res hmtx_tab :=
   match hhea_num_long hhea with
-  | Ok nl => match parse_hmtx hmtx nl (num_glyphs - nl) with
+  | Ok nl => match parse_hmtx hmtx nl (Z.max 0 (num_glyphs - nl)) with   (* the side bearings count is clamped to 0 *)
              | Ok t => Ok t
              | Err _ => Ok hmtx_empty_tab
              | Panic c => Panic c
@@ -75,12 +75,11 @@ Definition load_hmtx (hhea hmtx : list Z) (num_glyphs : Z) : res hmtx_tab :=
 
 Definition hmtx_is_empty (t : hmtx_tab) : bool := zlen (hm_metrics t) + zlen (hm_lsb t) =? 0.
 
-(* tables.Hmtx.Advance; table.Metrics[len-1] with no long metric is an index panic *)
+(* tables.Hmtx.Advance; without any long metric the advance is 0 *)
 Definition tab_advance (t : hmtx_tab) (gid : Z) : res Z :=
   let LM := zlen (hm_metrics t) in let LS := zlen (hm_lsb t) in
   if gid <? LM then Ok (fst (znth (0, 0) (hm_metrics t) gid))
-  else if gid <? LS + LM then
-    (if LM =? 0 then Panic 2 else Ok (fst (znth (0, 0) (hm_metrics t) (LM - 1))))
+  else if negb (LM =? 0) && (gid <? LS + LM) then Ok (fst (znth (0, 0) (hm_metrics t) (LM - 1)))
   else Ok 0.
 
 (* font.getSideBearing *)
@@ -225,10 +224,9 @@ Fixpoint contour_points_from (i : Z) (end_pts : list Z) (pts : list (Z * Z * Z))
   | (f, x, y) :: r => mkCP x y (flag_bit f 0) (mem_z i end_pts) :: contour_points_from (i + 1) end_pts r
   end.
 
-(* font.getContourPoints: points[end].isEndPoint = true indexes out of range when an end point is not below
-   len(Points) = last end point + 1 *)
+(* font.getContourPoints: end points that are not below len(Points) are skipped (they mark no point) *)
 Definition get_contour_points (end_pts : list Z) (pts : list (Z * Z * Z)) : res (list cpoint) :=
-  if forallb (fun e => e <? zlen pts) end_pts then Ok (contour_points_from 0 end_pts pts) else Panic 4.
+  Ok (contour_points_from 0 end_pts pts).
 
 Definition translate_x (tx : Z) (p : cpoint) : cpoint := mkCP (cp_x p + tx) (cp_y p) (cp_on p) (cp_end p).
 
